@@ -36,6 +36,10 @@ def _classes(v):
 
 
 def register(reg):
+    # BOUNDED stand-in for the whole-scene clauses of C18 (round trip / truncation / corruption on real programs)
+    from standins import scene_codec
+
+    scene_codec.register(reg)
     # ---------------------------------------------------------------- spec functions
     @reg.spec
     def written(D, p, v):
